@@ -75,6 +75,26 @@ def owner_prog(rng, ids, style):
     return ops
 
 
+def free_prog(rng, ids):
+    """an owner program for a free (scheduler-less) run: every blocking receive is matched by a reply that will come"""
+    nrep = {0: 0, 1: 0, 2: 1, 3: 2, 6: 1, 7: 3}
+    ops = []
+    for rd in range(rng.choice([1, 1, 2])):
+        expect = 0
+        for _ in range(rng.choice([0, 0, 1, 2])):            # queued before the start
+            i = ids.get(rng, [0, 2, 3, 7]); ops.append("si:%d" % i); expect += nrep[i % 8]
+        if rng.random() < 0.3:
+            ops.append("gs")
+        ops.append("st")
+        for _ in range(rng.choice([1, 2, 3, 5])):
+            i = ids.get(rng, [0, 2, 2, 3, 6, 7]); ops.append("si:%d" % i); expect += nrep[i % 8]
+            if rng.random() < 0.3 and expect > 0:
+                ops.append("rn"); expect -= 1
+        ops += ["rn"] * expect
+        ops += rng.choice([["sd1"], ["sd1"], ["sd0", "jn"], ["sin", "jn"]])
+    return ops
+
+
 def sender_prog(rng, ids):
     ops = []
     for _ in range(rng.choice([1, 2, 3, 4])):
@@ -131,21 +151,14 @@ DIRECTED = lifecycle_orders() + [
     (1, "0:rn;0:rp"),                                                 # blocking receive without sockets
 ]
 
-# event-driven internal thread + another thread sending to it while the owner is inside StartInternalThread: outside the
-# contract of the theorems (c11_evd_lost_wakeup_refuted); on the real code the fine runs lose the wake-up (finding handed
-# to the orchestrator, proposed patch /tmp/wt-C11-out/fix/StartInternalThread-initial-signal.patch)
-OUT_OF_CONTRACT = [
+# event-driven internal thread + another thread sending to it while the owner is inside StartInternalThread: with the
+# order StartInternalThread had when it was found (HasItems() read before the socket pair existed) about one fine schedule
+# in six of these loses the wake-up (F47, repaired by 67f6b10; c11_evd_lost_wakeup_refuted is the model-level witness)
+RACY_START = [
     (2, "0:st;1:si:8;0:sd1"),
     (2, "0:st;0:sd1;0:st;1:si:8;0:sd1"),
+    (3, "0:st;1:si:8;2:si:16;0:sd1"),
 ]
-
-
-def in_contract(body):
-    """only the owner (thread 0) sends to the internal thread"""
-    for o in body.split(";"):
-        if o and not o.startswith("0:") and (":si:" in o or o.endswith(":sin")):
-            return False
-    return True
 
 
 EXPLORE_QUICK = [
@@ -169,7 +182,7 @@ class CHECK(vlib.Check):
                 "exit (end-of-file wakes the owner; bytes written to it are lost), SendMessageAux (enqueue, sendNotification = "
                 "(GetNumItems()==1), signal after unlock), SignalAux, WaitForNextMessageAux (absorb up to sizeof(bytes) signal bytes, "
                 "dequeue, poll/never/timed, select-does-not-consume vs Wait-flushes, recursion with wakeupTime 0 in socket mode), "
-                "StartInternalThread (unlocked HasItems() read, initial signal), ShutdownInternalThread (NULL Message, optional join), "
+                "StartInternalThread (allocation, thread creation, then HasItems() under the lock and the initial signal -- as repaired by 67f6b10; the as-found order is kept behind a flag for c11_evd_lost_wakeup_refuted), ShutdownInternalThread (NULL Message, optional join), "
                 "WaitForInternalThreadToExit, GetOwnerWakeupSocket, InternalThreadEntryAux/InternalThreadEntry (signal at start-up for "
                 "replies queued in advance, B_TIMED_OUT is recoverable, NULL or an error from MessageReceivedFromOwner ends the thread), "
                 "a subclass MessageReceivedFromOwner that sends an arbitrary list of replies and may ask to exit, and the event-driven "
@@ -181,7 +194,6 @@ class CHECK(vlib.Check):
                 "AF_UNIX socket pair semantics (a byte sent is readable at once on the other end, recv absorbs up to the buffer size, a closed end makes the other end readable): the real sockets are used and queried by the harness, select() is replaced by the scheduler",
                 "one transition = one _queueLock critical section / one signal / one return: interleavings inside a critical section are not distinguished; unlocked reads of _messageSocketsAllocated, the socket references and _messages.HasItems() are taken to be atomic (the C++ data races on them are outside the model)",
                 "only the owner thread (thread 0) receives replies and calls Start/Shutdown/WaitForInternalThreadToExit, as Thread.h documents; one reader per queue",
-                "event-driven internal thread only: only the owner sends to the internal thread (mode_ok); without it StartInternalThread's too-early HasItems() read loses a wake-up (c11_evd_lost_wakeup_refuted, replayed on the real code; finding handed to the orchestrator)",
                 "pending-notification counts stay below 2^32 (saturation not modelled); allocation never fails",
                 "liveness is proved in its safety form only (an enabled transition exists); fairness of the OS scheduler is not modelled"]
     rule = ("each case = an owner program (start / sends / receives poll, blocking, timed / shutdown / join / restart) plus 0..3 sender "
@@ -191,7 +203,8 @@ class CHECK(vlib.Check):
             "flags), parking/wake-up/timeout, thread creation/exit/join and API results are compared with the extracted LTS, which "
             "re-derives the same decisions from its own enabledness; the harness's ideal-FIFO / lost-wake-up oracle runs as well.  "
             "'fine' cases (f=1) additionally make every Mutex lock inside muscle a decision point (interleavings inside "
-            "StartInternalThread, socket-pair creation, object pools) and are judged by the oracle alone.  "
+            "StartInternalThread, socket-pair creation, object pools) and are judged by the oracle alone; 'free' cases (f=2) run "
+            "without the scheduler against the real select()/condition variable (oracle + watchdog only).  "
             "Non-trivial = the internal thread is started and at least one Message is sent to it.")
     quick_timeout = 900
 
@@ -209,7 +222,7 @@ class CHECK(vlib.Check):
 
     def gen_cases(self, rng, tier):
         out = []
-        n_rand = 500 if tier == "quick" else 8000
+        n_rand = 400 if tier == "quick" else 3000
         for i in range(n_rand):
             ids = Ids()
             nsend = rng.choice([0, 0, 1, 1, 2, 3])
@@ -218,7 +231,7 @@ class CHECK(vlib.Check):
             seed = "-" if i % 10 == 0 else str(rng.randint(1, 10 ** 9))
             mk = rng.choice(MODES)
             out.append((style, "m=%s,k=%s,n=%d,seed=%s,sch=|%s" % (mk[0], mk[1], 1 + nsend, seed, interleave(rng, progs))))
-        reps = 2 if tier == "quick" else 30
+        reps = 2 if tier == "quick" else 10
         for (n, body) in DIRECTED:
             for mk in MODES:
                 out.append(("directed", "m=%s,k=%s,n=%d,seed=-,sch=|%s" % (mk[0], mk[1], n, body)))
@@ -226,10 +239,9 @@ class CHECK(vlib.Check):
                     out.append(("directed", "m=%s,k=%s,n=%d,seed=%d,sch=|%s" % (mk[0], mk[1], n, rng.randint(1, 10 ** 9), body)))
         # "fine" runs (f=1): every Mutex lock inside muscle is a decision point, so threads also interleave inside
         # StartInternalThread, CreateConnectedSocketPair, the object pools ...; the LTS has no such steps, the harness's oracle
-        # alone judges them (search for a failing input).  Programs stay inside the contract the theorems need: for the
-        # event-driven internal thread only the owner sends to it.  VERIF_C11_FINE_ALL=1 lifts that restriction (it then
-        # finds the racy needsInitialSignal of StartInternalThread, see OUT_OF_CONTRACT below).
-        n_fine = 160 if tier == "quick" else 1600
+        # alone judges them (search for a failing input).  This is the stream that found F47 (the too-early HasItems() read
+        # of StartInternalThread, see RACY_START below).
+        n_fine = 120 if tier == "quick" else 1200
         for i in range(n_fine):
             mk = rng.choice(MODES)
             if i % 2 == 0:
@@ -239,19 +251,20 @@ class CHECK(vlib.Check):
                 nsend = rng.choice([1, 1, 2])
                 progs = [owner_prog(rng, ids, rng.choice(["tidy", "restart"]))] + [sender_prog(rng, ids) for _ in range(nsend)]
                 n, body = 1 + nsend, interleave(rng, progs)
-            if mk[1] == "e" and not in_contract(body) and os.environ.get("VERIF_C11_FINE_ALL") != "1":
-                mk = ("s", "d")
             out.append(("fine", "m=%s,k=%s,f=1,n=%d,seed=%d,sch=|%s" % (mk[0], mk[1], n, rng.randint(1, 10 ** 9), body)))
-        if os.environ.get("VERIF_C11_FINE_ALL") == "1":
-            for (n, body) in OUT_OF_CONTRACT:
-                for _ in range(60):
-                    out.append(("fine-out-of-contract", "m=s,k=e,f=1,n=%d,seed=%d,sch=|%s" % (n, rng.randint(1, 10 ** 9), body)))
+        # "free" runs (f=2): no scheduler, the real select() / condition variable (supporting evidence for the runtime residue)
+        for i in range(40 if tier == "quick" else 400):
+            mk = rng.choice(MODES)
+            out.append(("free", "m=%s,k=%s,f=2,n=1,seed=-,sch=|%s" % (mk[0], mk[1], ";".join("0:" + o for o in free_prog(rng, Ids())))))
+        for (n, body) in RACY_START:
+            for _ in range(25 if tier == "quick" else 250):
+                out.append(("fine-racy-start", "m=s,k=e,f=1,n=%d,seed=%d,sch=|%s" % (n, rng.randint(1, 10 ** 9), body)))
         # exhaustive schedules up to a preemption bound (support for the tie, not the theorem)
         if getattr(self, "_impl", None):
             if tier == "quick":
-                todo = [(n, b, k, 120) for (n, b, k) in EXPLORE_QUICK]
+                todo = [(n, b, k, 50) for (n, b, k) in EXPLORE_QUICK]
             else:
-                todo = [(n, b, 2, 5000) for (n, b) in DIRECTED[:12]] + [(n, b, 3, 5000) for (n, b, _) in EXPLORE_QUICK[:2]]
+                todo = [(n, b, 2, 1500) for (n, b) in DIRECTED[:10]] + [(n, b, 3, 1500) for (n, b, _) in EXPLORE_QUICK[:2]]
             if not getattr(self, "_explored", None) or self._explored[0] != tier:
                 cache = []
                 for (n, body, bound, cap) in todo:
